@@ -15,6 +15,7 @@
 (*   {id, op:"cleanup", t, r}               Doit(r) = Doit(t)              *)
 (*   {id, op:"pickle" | "rebuild", t, r}                r = t              *)
 (*   {id, op:"eq", t, u, eq, hash}     eq = 1 <=> t = u;  eq = 1 => hash=1 *)
+(*   {id, op:"commute", t, eq, diff_q}  observed: subst;doit = doit;subst  *)
 (***************************************************************************)
 EXTENDS ExprAlgebra, Json, IOUtils
 
@@ -78,6 +79,11 @@ StepEq ==
   /\ Stat("eq_equal", EqT(t, u))
   /\ Stat("eq_differ_in_attr_only", ~ EqT(t, u) /\ t.h = u.h /\ t.a = u.a /\ t.at # u.at)
 
+\* observation: the two orders of substituting and unfolding were evaluated on the real object (numerically equal?)
+StepCommute ==
+  /\ Clause("SubstThenUnfoldEqualsUnfoldThenSubst", Rec.eq = 1, <<Rec.diff_q>>)
+  /\ Stat("commute_observed", TRUE)
+
 Step ==
   /\ l <= Len(Log)
   /\ CASE Rec.op = "subst"   -> StepSubst
@@ -86,6 +92,7 @@ Step ==
        [] Rec.op = "cleanup" -> StepCleanup
        [] Rec.op \in {"pickle", "rebuild"} -> StepIdentity
        [] Rec.op = "eq"      -> StepEq
+       [] Rec.op = "commute" -> StepCommute
        [] OTHER -> Clause("KnownOp", FALSE, Rec.op)
   /\ l' = l + 1
 
